@@ -76,7 +76,11 @@ func (s *dagScenario) resultAsserts(err error) {
 
 func VerifC14_Failures() {
 	vNativeReset()
-	s := newScenario(scenarioOpts{n: 3, outcomes: oSkip, buffer: true})
+	n := 3
+	if vThorough() {
+		n = 4
+	}
+	s := newScenario(scenarioOpts{n: n, outcomes: oSkip, buffer: true})
 	s.build()
 	err := s.run()
 	vObserve("failed", err != nil)
